@@ -77,6 +77,9 @@ pub fn run_statistics_worker(
     let mut peers: IndexMap<PeerId, (usize, PeerClient, CompactString)> = IndexMap::default();
 
     loop {
+        #[cfg(feature = "verif")]
+        aquatic_common::verif_fault!("udp.statistics.loop");
+
         let start_time = Instant::now();
 
         for message in statistics_receiver.try_iter() {
